@@ -127,28 +127,48 @@ def coq_audit():
 
 
 def props_report(pid):
-    """Re-compiles Props/<pid>.v (cheap: it only contains `exact` proofs) to capture the
-    Print Assumptions output. Returns dict(theorems=[...], closed=[...], open={name: text}, sha256)."""
+    """Captures the Print Assumptions output of Props/<pid>.v (the file only contains `exact` proofs and examples).
+    Returns dict(theorems=[...], closed=[...], open={name: text}, sha256).  Compiling a property file can take minutes
+    (C03.v: three), so the result is cached under .cache/props_report keyed by the source text and by size + mtime of the
+    compiled Props/<pid>.vo - make rebuilds that file whenever anything it depends on changes, and then the key changes."""
     path = os.path.join(COQ, "theories", "Props", pid + ".v")
     src = open(path).read()
+    sha = hashlib.sha256(src.encode()).hexdigest()
+    vo = os.path.join(COQ, "theories", "Props", pid + ".vo")
+    key = None
+    if os.path.exists(vo):
+        st = os.stat(vo)
+        key = hashlib.sha256(("%s %d %d" % (sha, st.st_size, st.st_mtime_ns)).encode()).hexdigest()[:24]
+        cpath = os.path.join(CACHE, "props_report", "%s-%s.json" % (pid, key))
+        if os.path.exists(cpath):
+            try:
+                rep = json.load(open(cpath))
+                if rep.get("sha256") == sha and rep.get("ok"):
+                    return rep
+            except Exception:  # noqa
+                pass
     names = re.findall(r"^\s*Theorem\s+(\w+)", strip_comments(src), flags=re.M)
     printed = re.findall(r"^\s*Print Assumptions\s+(\w+)\s*\.", strip_comments(src), flags=re.M)
     os.makedirs(WORK, exist_ok=True)
     tmpd = os.path.join(WORK, "props_%s_%d" % (pid, os.getpid()))
     os.makedirs(tmpd, exist_ok=True)
     out_vo = os.path.join(tmpd, pid + ".vo")
-    rc, out = sh(["timeout", "600", "coqc", "-q", "-noglob", "-Q", "theories", "Spl", "-o", out_vo, path], cwd=COQ)
+    rc, out = sh(["timeout", "1200", "coqc", "-q", "-noglob", "-Q", "theories", "Spl", "-o", out_vo, path], cwd=COQ)
     subprocess.run(["rm", "-rf", tmpd])
     if rc != 0:
-        return dict(ok=False, log=out, theorems=names, closed=[], open={}, sha256=hashlib.sha256(src.encode()).hexdigest())
+        return dict(ok=False, log=out, theorems=names, closed=[], open={}, sha256=sha)
     closed_count = len(re.findall(r"Closed under the global context", out))
     opened = {}
     # anything else printed by Print Assumptions starts with "Axioms:" / "Section Variables:"
     for m in re.finditer(r"(Axioms:|Section Variables:)(.*?)(?=\n\S|\Z)", out, flags=re.S):
         opened["assumption_%d" % len(opened)] = (m.group(1) + m.group(2)).strip()
     ok = (set(names) <= set(printed)) and closed_count == len(printed) and not opened and len(names) > 0
-    return dict(ok=ok, log=out, theorems=names, closed=printed if not opened else [], open=opened,
-                sha256=hashlib.sha256(src.encode()).hexdigest())
+    rep = dict(ok=ok, log=out[-4000:], theorems=names, closed=printed if not opened else [], open=opened, sha256=sha)
+    if ok and key:
+        os.makedirs(os.path.join(CACHE, "props_report"), exist_ok=True)
+        with open(os.path.join(CACHE, "props_report", "%s-%s.json" % (pid, key)), "w") as fh:
+            json.dump(rep, fh)
+    return rep
 
 
 def build_judge():
